@@ -49,9 +49,13 @@ pub struct AddrSeed {
 /// listening socket on 127.0.0.9:(1100 + n) for the life of the process. Two processes that ran
 /// jobs on the same loopback addresses at the same time (a background sweep next to a manual run)
 /// made the engine's `bind` fail with AddrInUse, which surfaced as a host panic of the job.
-fn process_slot() -> u64 {
+pub fn process_slot() -> u64 {
     static SLOT: std::sync::OnceLock<(u64, Option<std::net::TcpListener>)> = std::sync::OnceLock::new();
     SLOT.get_or_init(|| {
+        // a host process of a multi-process job uses the addresses of the process that spawned it
+        if let Some(n) = std::env::var("VERIF_ADDR_SLOT").ok().and_then(|s| s.parse::<u64>().ok()) {
+            return (n % 240, None);
+        }
         for n in 0..240u64 {
             if let Ok(l) = std::net::TcpListener::bind(("127.0.0.9", 1100 + n as u16)) {
                 return (n, Some(l));
@@ -140,7 +144,7 @@ impl Default for Watchdog {
 /// The quiescence window is scaled with the load of the machine (1 min load average per core,
 /// clamped to 1..6): on an oversubscribed box TCP connects back off and threads starve for seconds,
 /// which must not look like a deadlock.
-fn load_factor() -> f64 {
+pub fn load_factor() -> f64 {
     let cores = std::thread::available_parallelism().map(|n| n.get()).unwrap_or(1) as f64;
     std::fs::read_to_string("/proc/loadavg")
         .ok()
